@@ -331,6 +331,24 @@ def run(tier):
             ok = v is not None and v != 0
             if not ok and divisor and divisor[0] in ("c", "m"):
                 ok = range_contains_guard(fx, f, bi, divisor[1][0])
+            if not ok and divisor and divisor[0] in ("c", "m") and not f.closure and f.vis != "Public":
+                # the divisor is a parameter of a private helper: every caller passes a non-zero constant or a range-guarded value
+                # (`format_magnitude_in_radix(n, radix as i64)` behind `(2..=36).contains(&radix)`)
+                root = c10.root_of(f, divisor[1][0])
+                root = root[1] if isinstance(root, tuple) and root[0] == "local" else None
+                if isinstance(root, int) and 1 <= root <= f.argc:
+                    _, callers_ = fx.callgraph()
+                    sites_ = [(g, cb, ct) for g in fx.fns.values() for cb, ct in g.calls() if ct[1].get("d") == f.path]
+                    if sites_:
+                        ok = True
+                        for g, cb, ct in sites_:
+                            a = ct[2][root - 1] if root - 1 < len(ct[2]) else None
+                            va = c10.const_bound(fx, g, a) if a else None
+                            if va is not None and va != 0:
+                                continue
+                            if a and a[0] in ("c", "m") and range_contains_guard(fx, g, cb, a[1][0]):
+                                continue
+                            ok = False
             ck.instance("R5b.division", "%s/%s" % (f.parent, t[1]), F.short_span(t[8]), ok=ok)
             if not ok:
                 ck.finding("R5b.division", "R5b.division/%s" % f.parent, F.short_span(t[8]),
